@@ -11,6 +11,8 @@ Decides:
   NO-GROWTH           no function reachable from ImproveOrthogonalRoutes::nudgeOrthogonalRoutes grows or shrinks a route's point vector
                       during nudging (insert/push_back/resize/erase/clear on a displayRoute().ps), stores into route points are single
                       coordinate stores
+  LIMITS-NARROW-ONLY  a nudging segment's movement limits are only tightened (L = max(L, e), U = min(U, e)) after initialisation
+  REGION-CLOSURE      a nudging region is closed under overlapsWith (scan restarts whenever the region grows; all members tested)
   MIRROR              lowC/highC and the scan-line Above/Below helpers stay mirror images
 Not decided: separation distances, channel-width reasoning, ordering of nudged segments.
 """
@@ -260,12 +262,121 @@ def rule_no_growth(chk, prog, cg):
         r.ok("nudgeOrthogonalRoutes closure", root.where(), "%d functions, %d coordinate stores" % (n_checked, stores))
 
 
+def rule_limits_narrow(chk, prog):
+    r = chk.rule("LIMITS-NARROW-ONLY", "the movement limits of a nudging segment are only ever tightened: after initialisation every store to "
+                 "the locals passed as (minLim, maxLim) to the shiftable-segment constructor in buildOrthogonalNudgingSegments, and every "
+                 "non-constructor store to ShiftSegment::minSpaceLimit / maxSpaceLimit in libavoid, has the form L = max(L, e) for a "
+                 "lower and U = min(U, e) for an upper limit (or is guarded by e > L / e < U): a limit collected earlier (checkpoint, shape "
+                 "side, adjoining bend) is never discarded", floor=14)
+    lower, upper = set(), set()
+    fn = prog.fn("Avoid::buildOrthogonalNudgingSegments")
+    for n in fn.nodes():
+        if n.get("k") == "CXXNewExpr" and n.get("at") == "Avoid::NudgingShiftSegment":
+            ctor = [c for c in n["ch"] if c.get("k") == "CXXConstructExpr"][0]
+            if len(ctor["ch"]) == 8:
+                a, b = strip_casts(ctor["ch"][6]), strip_casts(ctor["ch"][7])
+                if a.get("k") == "DeclRefExpr" and b.get("k") == "DeclRefExpr":
+                    lower.add(a["did"])
+                    upper.add(b["did"])
+    if not lower:
+        raise AnalysisBroken("shiftable NudgingShiftSegment constructions with local limits not found")
+
+    def kind_of(f, lhs):
+        e = strip_casts(lhs)
+        if f.key == fn.key and e.get("k") == "DeclRefExpr" and e.get("did") in lower:
+            return "lower"
+        if f.key == fn.key and e.get("k") == "DeclRefExpr" and e.get("did") in upper:
+            return "upper"
+        fq = written_field(lhs)[0]
+        if fq == "Avoid::ShiftSegment::minSpaceLimit":
+            return "lower"
+        if fq == "Avoid::ShiftSegment::maxSpaceLimit":
+            return "upper"
+        return None
+    for f in prog.all_functions():
+        if f.tmpl == "pattern" or "/libavoid/" not in f.file or f.kind == "ctor":
+            continue
+        for lhs, node, op in writes(f):
+            kd = kind_of(f, lhs)
+            if kd is None:
+                continue
+            r.count()
+            inst = "%s: %s" % (f.q, norm(node))[:150]
+            target = norm(lhs)
+            rhs = strip_casts(node["ch"][-1]) if op == "=" else None
+            ok = False
+            if rhs is not None and rhs.get("cname", "").split("<")[0] == ("std::max" if kd == "lower" else "std::min"):
+                ok = target in [norm(a) for a in call_args(rhs)]
+            if not ok and rhs is not None:
+                pc = path_condition(f, node, inline=False)
+                e = norm(rhs)
+                wants = ["(%s > %s)" % (e, target), "(%s < %s)" % (target, e)] if kd == "lower" else \
+                        ["(%s < %s)" % (e, target), "(%s > %s)" % (target, e)]
+                ok = any(entails(pc, ("atom", w)) for w in wants)
+            if ok:
+                r.ok(inst, f.loc(node))
+            else:
+                r.bad(inst, f.loc(node), "the %s movement limit `%s` is overwritten, not tightened: limits collected before this statement "
+                      "(checkpoints inside adjoining segments, shape sides) are discarded" % (kd, target))
+
+
+def rule_region_closure(chk, prog):
+    from ..cfg import CFG
+    r = chk.rule("REGION-CLOSURE", "nudgeOrthogonalRoutes builds each nudging region as the closure under overlapsWith: the candidate scan "
+                 "tests the candidate against every member of the region, and whenever the region grows the scan restarts at "
+                 "m_segment_list.begin() before the next candidate is looked at (segments passed earlier may overlap the new member) -- "
+                 "otherwise overlapping segments are nudged in separate solver instances and stay on top of each other", floor=2)
+    fn = prog.fn("Avoid::ImproveOrthogonalRoutes::nudgeOrthogonalRoutes")
+    g = CFG(fn)
+    loops = [n for n in fn.nodes() if n.get("k") == "ForStmt" and n.get("init") is not None and n["init"].get("k") == "DeclStmt"
+             and norm(n["init"]["decls"][0].get("init")) == "m_segment_list.begin()"]
+    grow = []
+    for lp in loops:
+        for c in walk(lp["body"]):
+            if c.get("cname", "").endswith("::push_back") and c.get("k") == "CXXMemberCallExpr" and norm(call_object(c)) == "currentRegion":
+                grow.append((lp, c))
+    if len(grow) != 1:
+        raise AnalysisBroken("region-growing scan of nudgeOrthogonalRoutes not recognised (%d candidates)" % len(grow))
+    lp, push = grow[0]
+    it = lp["init"]["decls"][0]
+    resets = [node["id"] for lhs, node, op in writes(fn) if strip_casts(lhs).get("did") == it.get("did") and op == "=" and
+              norm(node["ch"][-1]) == "m_segment_list.begin()"]
+    hdr, body = g.loop_header(lp)
+    cond = strip(lp["cond"])
+    targets = [cond["id"]] if cond.get("id") in g.pos else []
+    for e in g.blocks[hdr]["el"]:
+        if isinstance(e, int) and e != -1:
+            targets.append(e)
+            break
+    w = g.search([g.after(push["id"])], blocked=resets, targets=targets)
+    r.count()
+    if w is not None:
+        r.bad("nudgeOrthogonalRoutes: restart after growth", fn.loc(push), "after adding a segment to the region the scan can continue along %s "
+              "without restarting from m_segment_list.begin(): segments already passed that overlap only the new member are left out" % g.describe(w))
+    else:
+        r.ok("nudgeOrthogonalRoutes: restart after growth", fn.loc(push))
+    # inner scan covers all members
+    inner = [n for n in walk(lp["body"]) if n.get("k") == "ForStmt" and n.get("init") is not None and n["init"].get("k") == "DeclStmt"
+             and norm(n["init"]["decls"][0].get("init")) == "currentRegion.begin()"]
+    r.count()
+    bad = None
+    if not inner or "currentRegion.end()" not in norm(inner[0].get("cond")):
+        bad = "no scan over all members of currentRegion"
+    else:
+        tests = [c["id"] for c in walk(inner[0]["body"]) if c.get("cname", "").endswith("::overlapsWith")]
+        if not tests or g.iteration_can_skip(inner[0], tests) is not None:
+            bad = "some region members are not tested with overlapsWith"
+    (r.bad if bad else r.ok)("nudgeOrthogonalRoutes: every member tested", fn.loc(lp), bad or "")
+
+
 def run(chk):
     prog = chk.load()
     cg = CallGraph(prog)
     rule_end_segments(chk, prog)
     rule_fixed_stays(chk, prog)
     rule_no_growth(chk, prog, cg)
+    rule_limits_narrow(chk, prog)
+    rule_region_closure(chk, prog)
     from ..rules import mirrors
     r = chk.rule("MIRROR", "NudgingShiftSegment::lowC/highC and the scan-line helpers firstObstacleAbove/Below, markShiftSegmentsAbove/Below "
                  "stay exact mirror images (tables/mirrors.json)", floor=3)
